@@ -414,6 +414,81 @@ class G:
         return {'t': 'UNKNOWN', 'sid': r.choice([0, 1, 3])}
 
 
+
+    # ------------------------------------------------------------ frames given by the structure of their octets (frame layer)
+    def gen_raw(self, x):
+        r = self.rng
+        conn = self.conn(x)
+        ss = self.streams(x)
+        live = [t['sid'] for t in ss if t['st'] != 'CLOSED']
+        z = self.z(x)
+        hi = max(z.get('hiIn', 0) or 0, 1)
+
+        def stream_sid():
+            p = r.random()
+            if live and p < 0.7:
+                return r.choice(live)
+            if p < 0.85:
+                return hi + (2 if (hi % 2) == (1 if x == 's' else 0) else 1)
+            return r.choice([0, 1, 3, hi + 5])
+        typ = r.choice([0, 0, 0, 1, 1, 1, 2, 3, 4, 4, 5, 6, 7, 8, 8, 9, 10, 32])
+        f = {'t': 'RAW', 'typ': typ, 'fl': 0, 'sid': 0, 'len': 0, 'pad': -1}
+        if typ == 0:
+            padded = r.random() < 0.5
+            mif = conn.max_inbound_frame_size
+            ln = r.choice([0, 1, 2, 3, 4, 10, 100, mif, mif + 1] if r.random() < 0.3 else [0, 1, 2, 3, 4, 10, 100])
+            pad = min(255, max(0, r.choice([0, 1, ln - 1, ln, ln + 1, 255]))) if padded and ln > 0 else -1
+            f.update(fl=(8 if padded else 0) | (1 if r.random() < 0.2 else 0), sid=stream_sid(), len=ln, pad=pad, tag='B')
+            if not padded or (pad == 0 or pad < ln):
+                self.unacked[x][f['sid']] = self.unacked[x].get(f['sid'], 0) + ln
+        elif typ in (1, 5):
+            padded = r.random() < 0.4
+            prio = typ == 1 and r.random() < 0.4
+            bl = r.choice([0, 1, 1, 2])
+            apad = r.choice([0, 1, 3]) if padded else 0
+            pad = r.choice([apad, apad, apad + 1, 255]) if padded else -1
+            natural = (1 if padded else 0) + (5 if prio else 0) + (4 if typ == 5 else 0) + bl + apad
+            ln = natural if r.random() < 0.7 else min(natural, r.choice([0, 1, 3, 4, 5]))
+            if padded and ln == 0:
+                pad = -1
+            sid = stream_sid()
+            fl = (8 if padded else 0) | (32 if prio else 0) | (4 if r.random() < 0.75 else 0) | (1 if typ == 1 and r.random() < 0.3 else 0)
+            f.update(fl=fl, sid=sid, len=ln, pad=pad, bl=bl, apad=apad)
+            if typ == 1:
+                f['pr'] = [r.randrange(1, 257), r.choice([0, sid, 7]), r.random() < 0.5]
+            else:
+                hi_in = z.get('hiIn', 0) or 0
+                f['pid'] = r.choice([hi_in + 2 if hi_in % 2 == 0 else hi_in + 1, 0, 3, 2])
+        elif typ == 9:
+            bl = r.choice([0, 1, 2])
+            f.update(fl=4 if r.random() < 0.7 else 0, sid=stream_sid(), len=bl, bl=bl)
+        elif typ == 2:
+            sid = stream_sid()
+            f.update(sid=sid, len=r.choice([5, 5, 5, 4, 6, 0]), w=r.randrange(1, 257), dep=r.choice([0, sid, 9]), excl=r.random() < 0.5)
+        elif typ == 3:
+            f.update(sid=stream_sid(), len=r.choice([4, 4, 4, 3, 5, 0]), code=r.choice([0, 2, 8]))
+        elif typ == 4:
+            if r.random() < 0.35:
+                s_, ln = ([], 0) if r.random() < 0.7 else ([[3, 5]], 6)
+                f.update(fl=1, s=s_, len=ln)
+            else:
+                s_ = self.valid_set_pairs(x, True)
+                f.update(s=s_, len=6 * len(s_) + r.choice([0, 0, 0, 1, 5]))
+            f['sid'] = 0 if r.random() < 0.9 else 1
+        elif typ == 6:
+            f.update(fl=1 if r.random() < 0.3 else 0, sid=0 if r.random() < 0.9 else 1, len=r.choice([8, 8, 8, 7, 9, 0]), tag=r.choice('AB'))
+        elif typ == 7:
+            ln = r.choice([8, 8, 7, 16])
+            f.update(sid=0 if r.random() < 0.9 else 1, len=ln, last=r.choice([0, 1]), code=r.choice([0, 2]), tag='A' if ln == 16 else '-')
+        elif typ == 8:
+            f.update(sid=0 if r.random() < 0.5 else stream_sid(), len=r.choice([4, 4, 4, 4, 3, 5]), inc=r.choice([1, 5, 100, 0, -1, 2147483647]))
+        elif typ == 10:
+            olen = r.choice([1, 1, 9, 0])
+            f.update(sid=0 if r.random() < 0.5 else stream_sid(), len=r.choice([5, 5, 5, 1, 0]), olen=olen, org='o', fld='h2')
+        else:
+            f.update(fl=r.choice([0, 5]), sid=r.choice([0, 1, 7]), len=r.choice([0, 3]))
+        return f
+
     # ------------------------------------------------------------ inputs that fit the current state (most steps)
     SEND_OK = ('OPEN', 'HALF_CLOSED_REMOTE')
     RECV_OK = ('OPEN', 'HALF_CLOSED_LOCAL')
@@ -544,8 +619,10 @@ class G:
 
     def gen_frame(self, x):
         r = self.rng
+        if self.flavour == 'raw' and r.random() < 0.35:
+            return self.gen_raw(x)
         if r.random() < self.chaos:
-            return self.wild_frame(x)
+            return self.gen_raw(x) if r.random() < 0.25 else self.wild_frame(x)
         f = self.flavour
         conn = self.conn(x)
         ss = self.streams(x)
